@@ -251,7 +251,115 @@ def run_history(run: Run, scen: dict, rng: random.Random):
         run.violation("context-not-restored", dict(scen, ops=ops), "after leaving every context the previously active context is not restored")
 
 
+def run_own_registry(run: Run, scen: dict, rng: random.Random):
+    """The operator functions of a context use that context's operator registry, wherever they are called from:
+    a context with its own integration / conjugation rule must give 'compile of the symbolic operator under that
+    registry' inside its block, outside any block, inside another context's block and through the module-level
+    functions with ctx=..."""
+    import itertools
+    import torch
+    import cirkit.symbolic.parameters as P
+    from cirkit.symbolic.circuit import CircuitBlock
+    from cirkit.symbolic.dtypes import DataType
+    from cirkit.symbolic.initializers import NormalInitializer
+    from cirkit.symbolic.layers import ConstantValueLayer, LayerOperator
+
+    torch.set_default_dtype(torch.float64)
+    op = scen["op"]
+    cplx = op == "conjugate"
+    nv, K, S = scen["nv"], scen["units"], scen["states"]
+    dt = DataType.COMPLEX if cplx else DataType.REAL
+
+    def tp(*shape):
+        return P.Parameter.from_input(P.TensorParameter(*shape, initializer=NormalInitializer(), dtype=dt))
+
+    embs = [EmbeddingLayer(Scope([v]), K, num_states=S, weight=tp(K, S)) for v in range(nv)]
+    layers, inl = list(embs), {}
+    top = embs[0]
+    if nv > 1:
+        top = HadamardLayer(K, arity=nv); layers.append(top); inl[top] = embs
+    out = SumLayer(K, 1, weight=tp(1, K)); layers.append(out); inl[out] = [top]
+    sc = Circuit(layers, inl, [out])
+
+    def my_integrate(sl: EmbeddingLayer, *, scope: Scope) -> CircuitBlock:
+        # counting measure of mass 2 per state: twice the default integral
+        red1 = P.Parameter.from_unary(P.ReduceSumParameter(sl.weight.shape, axis=1), sl.weight.ref())
+        red2 = P.Parameter.from_unary(P.ReduceSumParameter(sl.weight.shape, axis=1), sl.weight.ref())
+        two = P.Parameter.from_binary(P.SumParameter(red1.shape, red2.shape), red1, red2)
+        return CircuitBlock.from_layer(ConstantValueLayer(sl.num_output_units, log_space=False, value=two))
+
+    def my_conjugate(sl: EmbeddingLayer) -> CircuitBlock:
+        # a registry in which embeddings are declared self-conjugate (weights are not conjugated)
+        return CircuitBlock.from_layer(EmbeddingLayer(sl.scope, sl.num_output_units, num_states=sl.num_states, weight=sl.weight.ref()))
+
+    # this module uses postponed annotations; the registry reads the classes from __annotations__
+    my_integrate.__annotations__ = {"sl": EmbeddingLayer, "scope": Scope, "return": CircuitBlock}
+    my_conjugate.__annotations__ = {"sl": EmbeddingLayer, "return": CircuitBlock}
+    semiring = "complex-lse-sum" if cplx else "sum-product"
+    ctx = PL.PipelineContext(backend="torch", semiring=semiring, fold=scen["fold"], optimize=scen["optimize"])
+    other = PL.PipelineContext(backend="torch", semiring=semiring, fold=False, optimize=False)
+    try:
+        ctx.add_operator_rule(LayerOperator.INTEGRATION if op == "integrate" else LayerOperator.CONJUGATION,
+                              my_integrate if op == "integrate" else my_conjugate)
+        cc = ctx.compile(sc)
+    except Exception as e:  # noqa: BLE001
+        run.feature("unobservable", f"own-registry scenario: {type(e).__name__}")
+        return
+    X = torch.tensor(list(itertools.product(range(S), repeat=nv)))
+    with torch.no_grad():
+        base = cc(X)
+    lin = (lambda t: torch.exp(t)) if cplx else (lambda t: t)
+    if op == "integrate":
+        want = (2.0 ** nv) * lin(base).sum(dim=0)
+    else:
+        want = lin(base)  # under this registry "conjugate" leaves the embeddings, hence (with the sum weights conjugated) ...
+    situations = ["inside", "outside", "inside-other", "module-ctx", "module-ctx-inside-other"]
+    for sit in situations:
+        try:
+            def call():
+                if sit.startswith("module"):
+                    return PL.integrate(cc, ctx=ctx) if op == "integrate" else PL.conjugate(cc, ctx=ctx)
+                return ctx.integrate(cc) if op == "integrate" else ctx.conjugate(cc)
+            if sit == "inside":
+                with ctx:
+                    res = call()
+            elif sit in ("inside-other", "module-ctx-inside-other"):
+                with other:
+                    res = call()
+            else:
+                res = call()
+            # reference: the symbolic operator under the context's own registry, compiled by the context
+            with ctx:
+                ref = ctx.compile(SF.integrate(sc) if op == "integrate" else SF.conjugate(sc))
+            with torch.no_grad():
+                got = lin(res()) if op == "integrate" else lin(res(X))
+                exp = lin(ref()) if op == "integrate" else lin(ref(X))
+        except Exception as e:  # noqa: BLE001
+            run.violation("own-registry-crash", dict(scen, situation=sit), f"{op} called {sit}: {type(e).__name__}: {e}")
+            return
+        run.evaluations += 1
+        if got.shape != exp.shape or not torch.allclose(got, exp, rtol=1e-9, atol=1e-12):
+            run.violation("own-registry", dict(scen, situation=sit),
+                          f"{op} of a circuit compiled in a context with its own {op} rule, called {sit}: {got.flatten()[:3].tolist()} "
+                          f"but the context's registry gives {exp.flatten()[:3].tolist()} (the operator functions of a context must use its registry)")
+            return
+        if op == "integrate" and not torch.allclose(exp.flatten()[0], want.flatten()[0].to(exp.dtype), rtol=1e-9):
+            run.violation("own-registry-reference", dict(scen, situation=sit), f"reference {exp.flatten()[:2].tolist()} vs brute force {want.flatten()[:2].tolist()}",
+                          no_failing_input=True, broken="harness: custom integration rule oracle")
+            return
+        run.exact += 1
+
+
 def check(run: Run, tier: str, seed: int):
+    for i in range(8 if tier == "quick" else 60):
+        srng = random.Random(f"C18-reg-{seed}-{i}")
+        scen = {"kind": "own-registry", "op": ["integrate", "conjugate"][i % 2], "nv": srng.choice([1, 2, 3]),
+                "units": srng.choice([1, 2, 3]), "states": srng.choice([2, 3]), "fold": srng.random() < 0.5,
+                "optimize": srng.random() < 0.5, "torch_seed": srng.randrange(10 ** 6)}
+        import torch
+        torch.manual_seed(scen["torch_seed"])
+        run.case(scen, nontrivial=True, sample=scen if i < 1 else None, features={"kind": "own-registry", "op": scen["op"]})
+        run_own_registry(run, scen, srng)
     n = 30 if tier == "quick" else 300
     steps = 25 if tier == "quick" else 200
     for i in range(n):
@@ -264,4 +372,9 @@ def check(run: Run, tier: str, seed: int):
 
 def replay(run: Run, body: dict):
     s = body["scenario"]
+    if s.get("kind") == "own-registry":
+        import torch
+        torch.manual_seed(s["torch_seed"])
+        run_own_registry(run, {k: v for k, v in s.items() if k != "situation"}, random.Random(0))
+        return
     run_history(run, {"steps": s["steps"], "seed": s["seed"]}, random.Random(s["seed"]))
